@@ -11,6 +11,7 @@ from harness.common import Ctx, Disagreement, Failure
 from harness import ribrig
 
 THEOREM_MODULES = ['ExaModel.Props.C04']
+DRIVERS = ['drv_rib']
 ASSUMPTIONS = [
     'adj-rib-out is kept (cache on); routes belong to the families the RIB serves; paths_limit not in force',
     'the peer applies UPDATEs in the order sent (TCP)',
@@ -109,7 +110,7 @@ def run_model(ops: list[list], cache_on: bool = True) -> dict:
     base = len(lines)
     # drain: enough ticks; stop marker handled by reading until 'none'
     lines += ['rib tick'] * 64
-    out = common.run_driver(lines)
+    out = common.run_driver('drv_rib', lines)
     outs = [out[i] for i in idx]
     caches = [out[i + 1] for i in idx]
     pend = [out[i + 2] for i in idx]
